@@ -1740,6 +1740,9 @@ impl<'arena> PrettyFormatter<'arena> {
     fn scoped_telescope(&self, root: TermId, form: ScopedForm) -> ScopeTelescope<CoPatId> {
         let layers = std::iter::successors(Some(root), |current| {
             let (parameter, nested) = form.split(&self.arena.terms[current])?;
+            // A nested scope inside parentheses that print elided joins the telescope in the
+            // same run that elides them.
+            let nested = self.transparent_term_group(nested);
             form.split(&self.arena.terms[&nested])?;
             self.scope_boundary_allows_merging(parameter, nested).then_some(nested)
         })
@@ -1783,10 +1786,11 @@ impl<'arena> PrettyFormatter<'arena> {
     ) -> ScopeTelescope<&'arena ExistentialParameter> {
         let layers = std::iter::successors(Some(first), |current| {
             let parameter = current.parameters.last()?;
-            let Term::Exists(nested) = &self.arena.terms[&current.body] else {
+            let body = self.transparent_term_group(current.body);
+            let Term::Exists(nested) = &self.arena.terms[&body] else {
                 return None;
             };
-            self.scope_boundary_allows_merging(parameter.binder, current.body).then_some(nested)
+            self.scope_boundary_allows_merging(parameter.binder, body).then_some(nested)
         })
         .collect::<Vec<_>>();
         let body = layers.last().expect("existential telescopes are nonempty").body;
